@@ -16,6 +16,7 @@ PLAN = dict(
     level_note=NOTE_BASE,
     runs=[
         dict(name="wf", run="^(TestPropWellFormed|TestCorpus)$", checks=(1500, 200000), shards=(2, 16), timeout=(300, 3600)),
+        dict(name="aligned", run="^TestAligned$", timeout=(300, 900)),
         dict(name="cw", run="^TestPropCountingWriter$", checks=(3000, 300000), shards=(1, 4), timeout=(300, 3600)),
     ],
     require=[("wellformed", "sink:plain"), ("wellformed", "sink:readerfrom"), ("wellformed", "sink:counting-prewritten"), ("wellformed", "extra-sections-2"), ("countingwriter", "sink-failed"),
